@@ -118,6 +118,16 @@ func checkC20(w *World, r *Report) {
 					r.Assume("C20.nilfield", key, pos, "vetted: "+why)
 					continue
 				}
+				if why, ok := vettedBelowRoot(w, sk, roots); ok {
+					r.Assume("C20.nilfield", key, pos, "vetted: "+why)
+					continue
+				}
+				// the use sits in a small helper that is handed the value (`notAfter(a, b *time.Time)`): the vetted argument
+				// is about the value in the function that hands it in - every caller of the helper must be vetted for it
+				if why, ok := vettedAtCallers(w, sk, 0); ok {
+					r.Assume("C20.nilfield", key, pos, "vetted at every call site: "+why)
+					continue
+				}
 				r.Bad("C20.nilfield", key, pos, fmt.Sprintf("message component %v is nil when absent on the wire and is used without a nil test: %s", sk.labels, how))
 			}
 		}
@@ -373,4 +383,122 @@ func (iv *Inv) bech32Rejects(fn *ssa.Function, isField func(ssa.Value) bool, dep
 		}
 	}
 	return false, ""
+}
+
+// vettedAtCallers: the sink's value is a parameter of its function, and for every static caller the vetted table has an
+// entry for a value of that type in the calling function (same use, or any use).
+func vettedAtCallers(w *World, sk nilSink, depth int) (string, bool) {
+	p, isP := sk.v.(*ssa.Parameter)
+	if !isP || depth > 1 {
+		return "", false
+	}
+	callers := w.CG().Callers[sk.fn]
+	if len(callers) == 0 {
+		return "", false
+	}
+	why := ""
+	for _, cs := range callers {
+		if cs.Invoke || cs.Static != sk.fn {
+			return "", false
+		}
+		k := fmt.Sprintf("%s @ %s : ", shortType(p.Type()), funcName(cs.Caller))
+		if x, ok := c20VettedNil[k+sk.what]; ok {
+			why = x
+			continue
+		}
+		if x, ok := c20VettedNil[k+"*"]; ok {
+			why = x
+			continue
+		}
+		return "", false
+	}
+	return why, why != ""
+}
+
+// Vetted nil guards that hold for a whole phase of a validation: every value of the type used below the root function
+// was nil-checked by the per-element validation that its callers complete before they call the root. Keyed by type and
+// root (an exported function), not by the helpers the phase is cut into; the structural part - every chain from an
+// entry to the use passes the root, and every such caller of the root finishes a loop of the element validation first -
+// is checked on every run.
+var c20VettedNilBelow = []struct{ typ, root, elemValidate, why string }{
+	{"*x/cfedistributor/types.Account", "x/cfedistributor/types.ValidateSubDistributors", "types.SubDistributor.Validate",
+		"accounts reach the ordering validation only after SubDistributor.Validate / Destinations.Validate ran over every sub-distributor and rejected nil sources"},
+	{"*x/cfedistributor/types.DestinationShare", "x/cfedistributor/types.ValidateSubDistributors", "types.SubDistributor.Validate",
+		"shares were nil-checked by Destinations.Validate for every sub-distributor before ValidateSubDistributors runs"},
+}
+
+func vettedBelowRoot(w *World, sk nilSink, entries []*ssa.Function) (string, bool) {
+	cg := w.CG()
+	for _, ve := range c20VettedNilBelow {
+		if shortType(sk.v.Type()) != ve.typ {
+			continue
+		}
+		root := w.Func(ve.root)
+		if root == nil {
+			continue
+		}
+		// below the root: reachable from it, and not reachable from the entries when the root is not entered
+		if _, below := cg.Reach([]*ssa.Function{root})[sk.fn]; !below {
+			continue
+		}
+		seen := map[*ssa.Function]bool{root: true}
+		var q []*ssa.Function
+		for _, e := range entries {
+			if e != nil && !seen[e] {
+				seen[e] = true
+				q = append(q, e)
+			}
+		}
+		outside := false
+		for len(q) > 0 && !outside {
+			f := q[0]
+			q = q[1:]
+			if f == sk.fn {
+				outside = true
+				break
+			}
+			next := func(g *ssa.Function) {
+				if g != nil && !seen[g] {
+					seen[g] = true
+					q = append(q, g)
+				}
+			}
+			for _, s := range cg.Sites[f] {
+				for _, c := range s.Callees {
+					next(c)
+				}
+			}
+			for _, g := range cg.Refs[f] {
+				next(g)
+			}
+		}
+		if outside {
+			continue
+		}
+		// every caller of the root on the entry trees completes the per-element validation first
+		entryReach := cg.Reach(entries)
+		okCallers, n := true, 0
+		for _, cs := range cg.Callers[root] {
+			if _, on := entryReach[cs.Caller]; !on {
+				continue
+			}
+			n++
+			found := false
+			for _, l := range rangeLoops(cs.Caller) {
+				validates := loopBodyMustPass(l, func(b *ssa.BasicBlock) bool {
+					return blockHasCall(b, func(c *ssa.Call) bool { return strings.HasSuffix(callName(c.Common()), ve.elemValidate) })
+				})
+				if validates && loopEarlyExit(l) == nil && l.Header.Succs[1].Dominates(cs.Instr.Block()) {
+					found = true
+				}
+			}
+			if !found {
+				okCallers = false
+			}
+		}
+		if okCallers && n > 0 {
+			return ve.why + " (every chain to this use passes " + funcName(root) + ", whose callers finish the per-element validation first)", true
+		}
+	}
+	return "", false
 }
